@@ -14,13 +14,14 @@ import time
 
 ROOT = os.path.dirname(os.path.dirname(os.path.abspath(__file__)))
 REPO = os.environ.get("VERIF_REPO", "/repo")
-WORK = os.path.join(ROOT, "_work")
+WORK = os.environ.get("VERIF_WORK", os.path.join(ROOT, "_work"))
 BUILD = os.path.join(WORK, "build-hooks")
 BIN = os.path.join(WORK, "bin")
 LEAN = os.path.join(ROOT, "lean")
 HARNESS = os.path.join(ROOT, "harness")
-EVIDENCE = os.path.join(ROOT, "evidence")
-REPLAYS = os.path.join(ROOT, "replays")
+# a scratch run (VERIF_WORK set: seeded-change validation in a worktree) must not overwrite the committed evidence
+EVIDENCE = os.path.join(ROOT, "evidence") if "VERIF_WORK" not in os.environ else os.path.join(WORK, "evidence")
+REPLAYS = os.path.join(ROOT, "replays") if "VERIF_WORK" not in os.environ else os.path.join(WORK, "replays")
 GUARD = "ICINGA2_VERIF"
 NINJA_TARGETS = ["base", "config", "remote", "icinga", "methods", "checker", "notification",
                  "mmatch", "socketpair", "execvpe", "cli"]
@@ -82,7 +83,11 @@ def configure_repo_build():
            "-DICINGA2_UNITY_BUILD=OFF", f"-DCMAKE_CXX_FLAGS=-Wno-error -D{GUARD}",
            "-DICINGA2_WITH_MYSQL=OFF", "-DICINGA2_WITH_PGSQL=OFF", "-DICINGA2_WITH_ICINGADB=OFF",
            "-DICINGA2_WITH_LIVESTATUS=OFF", "-DICINGA2_WITH_COMPAT=OFF", "-DICINGA2_WITH_PERFDATA=OFF",
-           "-DICINGA2_WITH_TESTS=OFF", "-DUSE_SYSTEMD=OFF"]
+           "-DICINGA2_WITH_TESTS=OFF", "-DUSE_SYSTEMD=OFF",
+           "-DCMAKE_CXX_FLAGS_RELWITHDEBINFO=-O2 -DNDEBUG"]
+    import shutil
+    if shutil.which("ccache"):
+        cmd += ["-DCMAKE_CXX_COMPILER_LAUNCHER=ccache", "-DCMAKE_C_COMPILER_LAUNCHER=ccache"]
     rc, out = run(cmd)
     if rc != 0:
         raise InfraError("cmake configure failed:\n" + out[-4000:])
@@ -93,7 +98,9 @@ def build_repo():
     with Lock("build"):
         configure_repo_build()
         t0 = time.time()
-        rc, out = run(["ninja", "-C", BUILD] + NINJA_TARGETS)
+        env = dict(os.environ, CCACHE_BASEDIR="/", CCACHE_NOHASHDIR="1", CCACHE_SLOPPINESS="time_macros,include_file_mtime,include_file_ctime",
+                   CCACHE_DIR=os.environ.get("CCACHE_DIR", os.path.join(ROOT, "_work", "ccache")))
+        rc, out = run(["ninja", "-C", BUILD] + NINJA_TARGETS, env=env)
         if rc != 0:
             raise InfraError("/repo does not compile with -D%s:\n%s" % (GUARD, out[-6000:]))
         log("repo objects up to date (%.1fs)" % (time.time() - t0))
